@@ -202,7 +202,25 @@ func C01Scenarios(tier string) []*h.Scenario {
 		hh.W.AddNode(a, sim.NodeOpt{Age: 18 * Q, TaintAge: dp(3 * Q)})
 		hh.W.AddNode(a, sim.NodeOpt{Age: 17 * Q, ForceTaint: true})
 	}
+	// a group that can go over max_nodes (extra node registering): the early-return paths must not
+	// reap on information from an earlier scan
+	overmax := mk("c01.overmax", 1, func(hh *h.Hist, a *sim.ASG, g h.GroupSpec) {
+		n1 := hh.W.AddNode(a, sim.NodeOpt{Age: 20 * Q})
+		hh.W.AddPod(podOn(g, n1.Name, 500))
+		hh.W.AddNode(a, sim.NodeOpt{Age: 19 * Q, TaintAge: dp(0)})
+		hh.W.AddNode(a, sim.NodeOpt{Age: 18 * Q, TaintAge: dp(1 * Q)})
+	}, false)
+	overmax.Groups[0].Opts.MaxNodes = 3
+	gOver := overmax.Groups[0]
+	overmax.Events = func(hh *h.Hist, slot int) []h.Event {
+		var ev []h.Event
+		for _, n := range groupNodes(hh, gOver, 4) {
+			ev = append(ev, evPodStart(gOver, n.Name, 200), evPodFinish(gOver, n.Name), evCordon(n.Name, !n.Spec.Unschedulable))
+		}
+		return append(ev, evRegisterNode(gOver), evBurst(gOver, 3, 1000), evClearPending(gOver), evRestart(), evStale())
+	}
 	return []*h.Scenario{
+		overmax,
 		mk("c01.fresh", 1, fresh, false),
 		mk("c01.mid", 1, mid, false),
 		mk("c01.mid.min0", 0, mid, false),
